@@ -2649,7 +2649,12 @@ void fatal (char *fmt, ...) {
       if ((ob_name = dump_trace (DUMP_WITH_ARGS | DUMP_WITH_LOCALVARS)))
         debug_message ("{}\t----- in heart beat of /%s", ob_name);
 
-      save_context (&econ);
+      if (!save_context (&econ))
+        {
+          /* too deep recursion: no room to run the mudlib crash handler */
+          debug_message ("{}\t***** cannot call master::%s(), shutdown now.", APPLY_CRASH);
+          goto shutdown;
+        }
       if (setjmp (econ.context))
         {
           restore_context (&econ);
@@ -2680,6 +2685,7 @@ void fatal (char *fmt, ...) {
       pop_context (&econ);
     }
 
+shutdown:
   free (msg);
 
   if (CONFIG_INT (__ENABLE_CRASH_DROP_CORE__))
